@@ -29,6 +29,9 @@ import contextlib
 def limit(seconds: int):
     """Raise JobTimeout in the block after *seconds* (nested inside the
     per-job alarm of main_loop, which is re-armed afterwards)."""
+    # (a case that ran out of time next to fifteen busy workers is run again alone with
+    # WN_VERIF_TIMEOUT_SCALE times the limit before it counts as not terminating)
+    seconds = int(seconds) * int(os.environ.get('WN_VERIF_TIMEOUT_SCALE', '1'))
     old = signal.alarm(int(seconds))
     try:
         yield
